@@ -431,6 +431,10 @@ def events : (prev : Nat) → List (Bytes × Dec) → Option (List Event)
     else
       pure (⟨t, d.style, cur, infoOf d.style t⟩ :: tl)
 
+/-- the token size limit `NewDecoder` gives its scanner: none (`d.s.Buffer(nil, math.MaxInt)`);
+compared with the limit read from the source by `C17_gen_decoder_limit` -/
+def decoderLimit : Option Nat := none
+
 /-- `NewDecoder(r)` read to the end with `Next`. -/
 def decode (limit : Option Nat) (sch : Schedule) (doc : Bytes) : Option (List Event) × End :=
   let r := scanDoc limit sch doc
